@@ -226,7 +226,7 @@ func Harness_skeletons() {
 	hole := func(tag string, scope ...string) MalType { return g.node(tag, vrt.Param("holedepth", 1), scope) }
 	n := vrt.IntRange("n", 0, 3)
 	var prog MalType
-	switch vrt.Concrete(vrt.Choice("family", 8)) {
+	switch vrt.Concrete(vrt.Choice("family", 10)) {
 	case 0: // self recursion with a symbolic counter: (do (def g1 (fn [x] (if (< x 1) H (g1 (- x 1))))) (g1 n))
 		prog = lst(sym("do"),
 			lst(sym("def"), sym("g1"), lst(sym("fn"), vect(sym("x")),
@@ -264,8 +264,20 @@ func Harness_skeletons() {
 	case 6: // argument evaluation order and exactly-once with effects in every position
 		prog = lst(lst(sym("trace!"), lst(sym("fn"), vect(sym("x"), sym("y")), lst(sym("trace!"), lst(sym("list"), sym("y"), sym("x"))))),
 			lst(sym("trace!"), n), lst(sym("trace!"), hole("h")))
-	default: // only the selected if branch is evaluated; nil/false falsy, everything else truthy
+	case 7: // only the selected if branch is evaluated; nil/false falsy, everything else truthy
 		prog = lst(sym("if"), hole("c"), lst(sym("trace!"), 1), lst(sym("trace!"), 2))
+	case 8: // def inside a let with 0..1 bindings binds in the let's scope, not outside
+		binds := []MalType{}
+		if vrt.Bool("onebind") {
+			binds = []MalType{sym("y"), 5}
+		}
+		prog = lst(sym("do"), lst(sym("def"), sym("g1"), n),
+			lst(sym("let"), Vector{Val: binds}, lst(sym("def"), sym("g1"), hole("h")), lst(sym("def"), sym("g2"), 9), sym("g1")),
+			lst(sym("list"), sym("g1"), lst(sym("if"), true, sym("g2"))))
+	default: // a parameter shadowed by a def inside a nested scope of the function body
+		prog = lst(sym("do"),
+			lst(sym("def"), sym("g1"), lst(sym("fn"), vect(sym("x")), lst(sym("let"), vect(), lst(sym("def"), sym("x"), 0)), sym("x"))),
+			lst(sym("g1"), n))
 	}
 	compare(prog)
 }
